@@ -875,6 +875,27 @@ add("C05", "revert: DataType enum looked up by token name without a membership t
     "            if type_token.name not in exp.DType.__members__:\n                # Type tokens without a DataType counterpart are handled above, e.g. NULLABLE(<type>)\n                self.raise_error(f\"Invalid arguments for type {type_token.name}\")\n                self._retreat(index)\n                return None\n\n",
     "", "C05.p")
 
+add("C05", "revert: builder retried with dialect= inside the TypeError handler, unprotected", "sqlglot/parser.py",
+    "                    try:\n                        func = func_builder(args, dialect=self.dialect)\n                    except TypeError:\n                        # The builder itself failed on these arguments\n                        self.raise_error(f\"Invalid arguments for function {this}\")\n                        func = exp.Anonymous(this=this, expressions=args)\n",
+    "                    func = func_builder(args, dialect=self.dialect)\n", "C05.q")
+add("C05", "revert: pipe set operator asserts the class of its operand", "sqlglot/parser.py",
+    "            _unwrap_query(first_setop.expression.pop()),\n", "            first_setop.expression.pop().assert_is(exp.Subquery).unnest(),\n", "C05.r")
+add("C05", "pipe row count converted without the literal test", "sqlglot/parser.py",
+    "        if isinstance(count, exp.Literal) and count.is_int:\n            return count.to_py()\n", "        if count:\n            return count.to_py()\n", "C05.r")
+add("C05", "benign: pipe row count tested with is_number and converted under a ValueError handler", "sqlglot/parser.py",
+    "        if isinstance(count, exp.Literal) and count.is_int:\n            return count.to_py()\n",
+    "        if isinstance(count, exp.Literal) and count.is_int:\n            try:\n                return count.to_py()\n            except ValueError:\n                pass\n", "silent")
+add("C05", "revert: MAP builder indexes the value of the last key unconditionally", "sqlglot/parser.py",
+    "        values.append(seq_get(args, i + 1) or exp.Null())\n", "        values.append(args[i + 1])\n", "C05.s")
+add("C05", "hive named_struct builder walks up to len(args)", "sqlglot/parsers/hive.py",
+    "    for i in range(0, len(args) - 1, 2):", "    for i in range(0, len(args), 2):", "C05.s")
+add("C05", "revert: DEFAULT <property> dispatch outside the TypeError conversion", "sqlglot/parser.py",
+    "                try:\n                    return self.PROPERTY_PARSERS[self._prev.text.upper()](self, default=True)\n                except TypeError:\n                    self.raise_error(f\"Cannot parse property '{self._prev.text}'\")\n",
+    "                return self.PROPERTY_PARSERS[self._prev.text.upper()](self, default=True)\n", "C05.q")
+add("C05", "benign: the property parser is bound to a local before the guarded keyword call", "sqlglot/parser.py",
+    "                try:\n                    return self.PROPERTY_PARSERS[self._prev.text.upper()](self, default=True)\n                except TypeError:\n",
+    "                property_parser = self.PROPERTY_PARSERS[self._prev.text.upper()]\n                try:\n                    return property_parser(self, default=True)\n                except TypeError:\n", "silent")
+
 add("C07", "revert: ON ERROR default rendered with str()", G,
     "            f\"DEFAULT {self.sql(error)} ON ERROR\"", "            f\"DEFAULT {error} ON ERROR\"", "C07.f")
 add("C07", "lock wait literal rendered with str()", G,
